@@ -97,17 +97,14 @@ func (x *Exec) modAddr(name StrV) *smt.Term {
 	return a
 }
 
-// coinsOf decodes an sdk.Coins value with at most one coin.
+// coinsOf decodes an sdk.Coins value; the bank operations treat the coins one by one, as
+// the sdk's subUnlockedCoins/addCoins loops do.
 func (x *Exec) coinsOf(v Value) []Value {
 	sl, ok := v.(SliceV)
 	if !ok {
 		x.Unsupported("expected sdk.Coins, got %T", v)
 	}
-	es := x.sliceElems(sl)
-	if len(es) > 1 {
-		x.Unsupported("bank call with more than one coin")
-	}
-	return es
+	return x.sliceElems(sl)
 }
 
 func (m *BankModel) Invoke(x *Exec, method string, args []Value, c *ssa.CallCommon) Value {
